@@ -110,3 +110,15 @@ claim("C04",
   "Trusted: go/ssa, go/cfg, SCCP evaluator, the contract table of variable-index sites; a pushed-back token re-scans as the same token. Not covered: progress of the recursion cycles (each consumes a token) is argued, not decided; regexp.Compile/strconv behaviour.",
   "static analysis: guard dominance + dynamic-type sets + bounded push-back typestate + SCCP end-of-input loop exit",
   "DESIGN.md 4/C04, 3/E2 E3 E5")
+
+claim("C01",
+  "Decides the finite tables and wiring the recursive descent relies on: every statement kind is built by a parse function reachable from the dispatch tree, which is keyed by keyword tokens only; for every (parse function, AST node) pair the keyword consumed in front of each store agrees with the keyword the printer writes for that field (so LIMIT/SLIMIT, OFFSET/SOFFSET, FUTURE/PAST are not cross-wired in the parser); every scanned token is matched, used, pushed back or reported on every path (no clause swallows or drops a token); segmented names fill database/policy/name right-aligned for every arity; the first-token -> node-kind table of unary expressions, the sign multipliers, the boolean value, the cast-name tables and the keyword table are extracted and compared with what the grammar states. Acceptance of every derivable text, numeric literal conversion and nesting are NOT decided.",
+  "Trusted: go/types, go/ssa, SCCP evaluator, the slot extraction idioms of checker/slots.go (assignment to a field of the node under construction, composite literals, scan-compare guards, parseTokens, ParseOptionalTokenAndInt) and its exception table. Not covered: the README grammar is not parsed; duplicate-option bookkeeping (e.g. ALTER RETENTION POLICY's option set).",
+  "static analysis: parser/printer slot-event extraction over the type-checked AST + token probe-balance typestate + SCCP table extraction",
+  "DESIGN.md 4/C01, 3/E4")
+
+claim("C02",
+  "For every AST node a parse function builds (about 50 pairs) the parser's stores and the printer's emissions are extracted in source order and compared: every stored field is read by the printer and written (not merely tested); each is printed through the formatter whose output the parser's reader for that slot accepts (QuoteIdent / QuoteString / FormatDuration / integer formatting / the node's own String; raw text and Go duration syntax are violations); the keyword in front of each printed field is one the parser consumes before storing it; shallow clauses are printed in the order they are parsed. Literal formatters are checked against the lexer (decimal point on floats, regex delimiter escape, true/false, RFC3339Nano). Two known findings are recorded (raw call names; the -1 * x form of a signed operand). Equality of values through the round trip (float shortest formatting, pointer-to-zero vs nil options) is not decided.",
+  "Trusted: go/types, go/ssa; the extraction idioms and exception table in checker/slots.go and checker/rules_c01_c02.go. Not covered: value-level round trip, nesting depth, conditions under which an optional clause is printed (e.g. > 0 tests).",
+  "static analysis: parser/printer slot agreement (coverage, class, keyword, order) over the type-checked AST + dynamic-type set of unary operands",
+  "DESIGN.md 4/C02, 3/E4")
